@@ -149,8 +149,11 @@ func C06(c *core.Ctx) {
 		in := pfd.Obj.Type().(*types.Signature).Params().At(0)
 		calls := core.CallsTo(pinfo, pfd.Decl.Body, func(f *types.Func) bool { return f.Name() == "AmountFromString" })
 		ld := core.NewLocalDefs(pinfo, pfd.Decl.Body)
+		pflow := core.NewFuncFlow(pfd).Flow
 		// "the input minus at most one trailing %": the input itself, strings.TrimSuffix(input, "%"),
-		// input[:len-1] under a test that the last character is "%", or a local holding one of these
+		// or input[:len(input)-1] at a point where the last character was found to be "%"
+		// (a comparison with "%" / '%' found true, != found false, or HasSuffix(…, "%")),
+		// directly or through locals
 		isTrimOne := func(e ast.Expr) bool {
 			cl, ok := ast.Unparen(e).(*ast.CallExpr)
 			if !ok || len(cl.Args) != 2 {
@@ -163,36 +166,65 @@ func C06(c *core.Ctx) {
 			sfx, ok := foldString(pinfo, cl.Args[1])
 			return ok && sfx == "%" && core.VarOf(pinfo, cl.Args[0]) == in
 		}
+		isPct := func(e ast.Expr) bool {
+			if s, ok := foldString(pinfo, e); ok {
+				return s == "%"
+			}
+			if tv, ok := pinfo.Types[ast.Unparen(e)]; ok && tv.Value != nil && tv.Value.Kind() == constant.Int {
+				n, _ := constant.Int64Val(tv.Value)
+				return n == '%'
+			}
+			return false
+		}
+		var isLenMinus1 func(e ast.Expr, depth int) bool
+		isLenMinus1 = func(e ast.Expr, depth int) bool {
+			e = ast.Unparen(e)
+			if v := core.VarOf(pinfo, e); v != nil && depth < 3 {
+				ds := ld.All(v)
+				return len(ds) == 1 && ds[0].RHS != nil && ds[0].N == 1 && isLenMinus1(ds[0].RHS, depth+1)
+			}
+			be, ok := e.(*ast.BinaryExpr)
+			if !ok || be.Op != token.SUB {
+				return false
+			}
+			if tv, ok := pinfo.Types[ast.Unparen(be.Y)]; !ok || tv.Value == nil || tv.Value.ExactString() != "1" {
+				return false
+			}
+			x := ast.Unparen(be.X)
+			if v := core.VarOf(pinfo, x); v != nil {
+				if ds := ld.All(v); len(ds) == 1 && ds[0].RHS != nil && ds[0].N == 1 {
+					x = ast.Unparen(ds[0].RHS)
+				}
+			}
+			cl, ok := x.(*ast.CallExpr)
+			if !ok || len(cl.Args) != 1 || core.VarOf(pinfo, cl.Args[0]) != in {
+				return false
+			}
+			id, ok := ast.Unparen(cl.Fun).(*ast.Ident)
+			return ok && id.Name == "len"
+		}
+		lastIsPctAt := func(n ast.Node) bool {
+			for leaf, val := range pflow.CondsAt(pflow.EnclosingNode(n)) {
+				switch x := ast.Unparen(leaf).(type) {
+				case *ast.BinaryExpr:
+					if (x.Op == token.EQL && val || x.Op == token.NEQ && !val) && (isPct(x.Y) || isPct(x.X)) {
+						return true
+					}
+				case *ast.CallExpr:
+					if fn := core.Callee(pinfo, x); val && fn != nil && fn.Pkg() != nil && fn.Pkg().Path() == "strings" && fn.Name() == "HasSuffix" && len(x.Args) == 2 && isPct(x.Args[1]) {
+						return true
+					}
+				}
+			}
+			return false
+		}
+		isStripSlice := func(e ast.Expr) bool {
+			se, isSlice := ast.Unparen(e).(*ast.SliceExpr)
+			return isSlice && core.VarOf(pinfo, se.X) == in && se.Low == nil && se.High != nil && isLenMinus1(se.High, 0) && lastIsPctAt(se)
+		}
 		okStrip := true
 		for _, d := range ld.All(in) {
-			if d.RHS == nil {
-				okStrip = false
-				continue
-			}
-			if isTrimOne(d.RHS) {
-				continue
-			}
-			se, isSlice := ast.Unparen(d.RHS).(*ast.SliceExpr)
-			if !isSlice || core.VarOf(pinfo, se.X) != in || se.Low != nil {
-				okStrip = false
-				continue
-			}
-			pct := false
-			for _, cnd := range enclosingConds(pfd.Decl.Body, d.Stmt) {
-				if be, ok := ast.Unparen(cnd).(*ast.BinaryExpr); ok && be.Op == token.EQL {
-					if s, ok := foldString(pinfo, be.Y); ok && s == "%" {
-						pct = true
-					}
-				}
-				if cl, ok := ast.Unparen(cnd).(*ast.CallExpr); ok && len(cl.Args) == 2 {
-					if fn := core.Callee(pinfo, cl); fn != nil && fn.Pkg() != nil && fn.Pkg().Path() == "strings" && fn.Name() == "HasSuffix" {
-						if s, ok := foldString(pinfo, cl.Args[1]); ok && s == "%" {
-							pct = true
-						}
-					}
-				}
-			}
-			if !pct {
+			if d.RHS == nil || !(isTrimOne(d.RHS) || isStripSlice(d.RHS)) {
 				okStrip = false
 			}
 		}
@@ -204,7 +236,7 @@ func C06(c *core.Ctx) {
 					arg = ast.Unparen(ds[0].RHS)
 				}
 			}
-			if core.VarOf(pinfo, arg) != in && !isTrimOne(arg) {
+			if core.VarOf(pinfo, arg) != in && !isTrimOne(arg) && !isStripSlice(arg) {
 				okDel = false
 			}
 		}
